@@ -542,15 +542,16 @@ func (c *c14Case) UnmarshalJSON(data []byte) error {
 }
 
 type c05CaseJSON struct {
-	Pieces []bstr `json:"pieces"`
-	Input  bstr   `json:"input,omitempty"`
-	Seed   bstr   `json:"seed"`
-	Kind   string `json:"kind,omitempty"`
-	Expect string `json:"expect,omitempty"`
+	Pieces  []bstr `json:"pieces"`
+	Input   bstr   `json:"input,omitempty"`
+	Seed    bstr   `json:"seed"`
+	Kind    string `json:"kind,omitempty"`
+	Expect  string `json:"expect,omitempty"`
+	Readers []int  `json:"readers,omitempty"`
 }
 
 func (c c05Case) MarshalJSON() ([]byte, error) {
-	j := c05CaseJSON{Input: bstr(c.Input), Seed: bstr(c.Seed), Kind: c.Kind, Expect: c.Expect}
+	j := c05CaseJSON{Input: bstr(c.Input), Seed: bstr(c.Seed), Kind: c.Kind, Expect: c.Expect, Readers: c.Readers}
 	if c.Pieces != nil {
 		j.Pieces = bstrs(c.Pieces)
 	}
@@ -562,7 +563,7 @@ func (c *c05Case) UnmarshalJSON(data []byte) error {
 	if err := json.Unmarshal(data, &j); err != nil {
 		return err
 	}
-	*c = c05Case{Input: string(j.Input), Seed: string(j.Seed), Kind: j.Kind, Expect: j.Expect}
+	*c = c05Case{Input: string(j.Input), Seed: string(j.Seed), Kind: j.Kind, Expect: j.Expect, Readers: j.Readers}
 	if j.Pieces != nil {
 		c.Pieces = unbstrs(j.Pieces)
 	}
